@@ -578,6 +578,14 @@ pub fn apply_input_plugins(
     query: &serde_json::Value,
     plugins: &Vec<Arc<dyn InputPlugin>>,
 ) -> Result<Vec<serde_json::Value>, serde_json::Value> {
+    // a query must be a JSON object. anything else (in particular an array, which the flatten
+    // step below would silently dissolve into its elements) is answered with one error response
+    if !query.is_object() {
+        return Err(in_ops::package_error(
+            &mut query.clone(),
+            "expected query to be a JSON object",
+        ));
+    }
     let mut plugin_state = serde_json::Value::Array(vec![query.clone()]);
     for plugin in plugins {
         let p = plugin.clone();
